@@ -93,6 +93,9 @@ def const_val(n):
         return None
     if 'val' in n:
         return n['val']
+    # an explicit cast of an integer constant to a floating type: (double)INT_MIN
+    if n.get('k') == 'cast' and 'val' in n.get('e', {}) and n['e'].get('k') in ('int', 'un', 'bin', 'cast'):
+        return n['e']['val']
     return None
 
 
